@@ -569,7 +569,7 @@ fn leaf_op() -> BoxedStrategy<BOp> {
             .prop_map(|(c, cloning, dim, include_if_unused)| BOp::Config { c, cloning, dim, include_if_unused }),
         1 => (src(), 0u8..4, 0u8..3).prop_map(|(src, module, pkg)| BOp::Import { src, module, pkg }),
         1 => (src(), 0u8..4, 0u8..3).prop_map(|(src, module, pkg)| BOp::Routes { src, module, pkg }),
-        2 => (modifs().prop_filter("needs a modifier", |m| !m.is_empty()), src(), 0u8..4, 0u8..3)
+        2 => (prop::collection::vec(prop_oneof![(0u8..5).prop_map(Modif::Prefix), (0u8..4).prop_map(Modif::Domain)], 1..=4), src(), 0u8..4, 0u8..3)
             .prop_map(|(modifs, src, module, pkg)| BOp::NestRoutes { modifs, src, module, pkg }),
     ]
     .boxed()
